@@ -9,7 +9,8 @@ the channels' own counters):
     in Y's advertised maximum packet size;
   * what Y's channel receives is, per stream (normal data, each extended
     type), a prefix of what X's user wrote, and the whole of it at quiescence
-    unless Y asked to close;
+    unless Y has sent its CLOSE (a receiver whose own close is only pending
+    behind buffered data is still open and must keep replenishing);
   * X sends CHANNEL_CLOSE only after every byte its user wrote has been sent,
     and only because its user asked for it or the peer closed first (so a
     compliant sender is never refused with a close);
@@ -25,10 +26,10 @@ META = dict(
     property="C36",
     level="exploration",
     technique="random + small-scope-exhaustive operation histories over a real SSHConnection pair with a controlled message queue, checked against an RFC 4254 window model built from the message log",
-    level_text="Histories of write / writeExtended(type) / loseConnection / manual adjustWindow on either endpoint interleaved with message-by-message delivery in either direction; window sizes and maximum packet sizes from 1 byte up to the defaults (131072 / 32768). Quick tier additionally enumerates every history of length <= 4 over a small alphabet for windows/packet limits in {1,2,3}. Quiescence (everything delivered) stands in for 'once enough window is granted'.",
+    level_text="Histories of write / writeExtended(type) / loseConnection / manual adjustWindow on either endpoint, including writes and loseConnection issued re-entrantly from the channel's startWriting() callback (a resumed push producer), interleaved with message-by-message delivery in either direction; window sizes and maximum packet sizes from 1 byte up to the defaults (131072 / 32768). Quick tier additionally enumerates every history of length <= 4 over a small alphabet for windows/packet limits in {1,2,3}. Quiescence (everything delivered) stands in for 'once enough window is granted'.",
     level_note="Both endpoints are the code under test (the receiver's replenishment policy is part of the property); the model of what is allowed is computed from the recorded messages alone. The SSH transport is replaced by a double exposing sendPacket (no avatar attribute). Writes after a side has requested loseConnection are not generated (ITransport leaves them undefined).",
     design_ref="§5 C36",
-    rule="case = (window/maxpacket of both channels, op list). non-trivial = some write is larger than the peer's window and its packet size at that time (so it had to be split and buffered); distinct by the whole case.",
+    rule="case = (window/maxpacket of both channels, op list [w | x | close | adj | d | hook(side, actions run inside the next startWriting())]). non-trivial = some write is larger than the peer's window and its packet size at that time (so it had to be split and buffered); distinct by the whole case.",
 )
 
 MSG_OPEN, MSG_OPEN_CONF, MSG_OPEN_FAIL = 90, 91, 92
@@ -79,6 +80,9 @@ class Side:
         # receive level (from the real channel callbacks)
         self.received = {}         # stream key -> bytearray
         self.closed_cb = 0
+        # user actions to perform re-entrantly inside the next startWriting() callback
+        self.hook = []
+        self.hook_runs = 0
 
 
 class FakeTransport:
@@ -216,6 +220,15 @@ def _classes():
             def closed(self):
                 self.side.closed_cb += 1
 
+            def startWriting(self):
+                # a push producer resumed by the window opening: it writes
+                # (and may ask to close) from inside the callback
+                acts, self.side.hook = self.side.hook, []
+                if acts:
+                    self.side.hook_runs += 1
+                for a in acts:
+                    self.world.user(self.side, a)
+
             def openFailed(self, reason):
                 self.world.problems.append(("open-failed", repr(reason)))
 
@@ -272,28 +285,31 @@ def run_case(ctx, case):
     _raise_problems(ctx, world, case, "open")
     A, B = world.A, world.B
     sides = {"A": A, "B": B}
-    nontrivial = False
     nops = dict(w=0, x=0, close=0, adj=0, d=0)
-    for step, op in enumerate(case["ops"]):
-        kind = op[0]
-        side = sides[op[1]]
+    state = dict(nontrivial=False)
+
+    def user(side, act, reentrant=True):
+        """One user-level action on `side`'s channel: ("w", n) | ("x", type, n) | ("close",)."""
         peer = world.peer(side)
+        kind = act[0]
         if kind in ("w", "x"):
             if side.close_requested or side.close_received or side.sent_close:
                 ctx.count("write skipped (side closing)")
-                continue
+                return
             if kind == "w":
-                n = op[2]
+                n = act[1]
                 key, salt = "data", (1 if side is A else 2)
             else:
-                typ, n = op[2], op[3]
+                typ, n = act[1], act[2]
                 key, salt = f"ext{typ}", (10 if side is A else 20) + typ
             start = side.written.get(key, 0)
             data = pattern(salt, start, n)
             avail = peer.adv_window + side.granted_seen - side.sent_total
             if n > avail and n > peer.adv_maxpkt:
-                nontrivial = True
+                state["nontrivial"] = True
             side.written[key] = start + n
+            if reentrant:
+                ctx.count("re-entrant write from startWriting()")
             if kind == "w":
                 side.chan.write(data)
             else:
@@ -301,10 +317,29 @@ def run_case(ctx, case):
             nops[kind] += 1
         elif kind == "close":
             if side.close_requested:
-                continue
+                return
             side.close_requested = True
+            if reentrant:
+                ctx.count("re-entrant loseConnection from startWriting()")
             side.chan.loseConnection()
             nops["close"] += 1
+        else:
+            raise HarnessError("unknown user action %r" % (act,))
+
+    world.user = user
+    for step, op in enumerate(case["ops"]):
+        kind = op[0]
+        side = sides[op[1]]
+        peer = world.peer(side)
+        if kind == "w":
+            user(side, ("w", op[2]), reentrant=False)
+        elif kind == "x":
+            user(side, ("x", op[2], op[3]), reentrant=False)
+        elif kind == "close":
+            user(side, ("close",), reentrant=False)
+        elif kind == "hook":
+            # arm the side's next startWriting() callback
+            side.hook = [tuple(a) for a in op[2]]
         elif kind == "adj":
             # the receiving user grants extra window by hand (public API)
             if side.sent_close or side.chan not in side.conn.channelsToRemoteChannel:
@@ -335,10 +370,14 @@ def run_case(ctx, case):
             raise HarnessError("does not quiesce")
     _check_received(ctx, world, case, "quiescence")
     for X, Y in ((A, B), (B, A)):
-        # X -> Y must be complete unless Y turned away (asked to close)
-        if Y.close_requested or Y.sent_close:
-            ctx.count("direction not judged for completeness (receiver closed)")
+        # X -> Y must be complete unless Y has closed its end (sent CLOSE): a
+        # receiver whose own close is merely pending behind buffered data is
+        # still open and still has to replenish its window
+        if Y.sent_close:
+            ctx.count("direction not judged for completeness (receiver sent CLOSE)")
             continue
+        if Y.close_requested:
+            ctx.count("direction judged while receiver's close is pending")
         for key, total in X.written.items():
             got = len(Y.received.get(key, b""))
             if got != total:
@@ -364,13 +403,15 @@ def run_case(ctx, case):
     ctx.count("ops: ext writes", nops["x"])
     ctx.count("ops: closes", nops["close"])
     ctx.count("ops: manual adjusts", nops["adj"])
+    if A.hook_runs or B.hook_runs:
+        ctx.count("cases with a re-entrant startWriting() callback")
     if min(case["wA"], case["wB"]) == 1:
         ctx.count("window of 1")
     if min(case["mA"], case["mB"]) == 1:
         ctx.count("max packet of 1")
     if len([k for k in list(A.written) + list(B.written) if k != "data"]) >= 2:
         ctx.count("two or more extended streams")
-    if nontrivial:
+    if state["nontrivial"]:
         ctx.nontrivial(case)
         ctx.count("nontrivial")
         if len(ctx.samples) < 5 and len(case["ops"]) <= 8:
@@ -413,6 +454,10 @@ def _strategy():
             st.tuples(st.just("d"), side, st.integers(1, 200)),
             st.tuples(st.just("adj"), side, st.one_of(st.integers(1, 20), st.integers(1, 2000))),
             st.tuples(st.just("close"), side),
+            st.tuples(st.just("hook"), side, st.lists(st.one_of(
+                st.tuples(st.just("w"), n),
+                st.tuples(st.just("x"), st.sampled_from([1, 1, 2, 3]), n),
+                st.tuples(st.just("close"))), min_size=1, max_size=3).map(tuple)),
         )
         return st.lists(op, min_size=1, max_size=16)
 
@@ -443,6 +488,8 @@ ALPHABET = [
     ("d", "A", 1), ("d", "B", 1), ("d", "A", 50),
     ("adj", "B", 2),
     ("w", "B", 3),
+    ("close", "B"),
+    ("hook", "A", (("w", 2),)),       # A's next startWriting() callback writes 2 bytes re-entrantly
 ]
 
 
@@ -453,6 +500,8 @@ def _small_scope(ctx, shard):
     i = 0
     for wB, mB in params:
         for L in range(1, depth + 1):
+            if not ctx.thorough and L == depth and (wB, mB) not in ((2, 1), (3, 2)):
+                continue        # quick: the deepest level for two parameter pairs only
             for ops in itertools.product(ALPHABET, repeat=L):
                 i += 1
                 if i % 16 != shard:
@@ -476,11 +525,11 @@ def run(ctx):
         for shard in range(16):
             _enum_shard(ctx, shard)
     ctx.extra["small_scope"] = (f"all histories of length <= {ctx.pick(4, 5)} over {len(ALPHABET)} operations, "
-                                f"receiver (window, max packet) in " + ("{1,2,3}x{1,2}" if ctx.thorough else "{(1,1),(2,1),(2,2),(3,2)}"))
+                                f"receiver (window, max packet) in " + ("{1,2,3}x{1,2}" if ctx.thorough else "{(1,1),(2,1),(2,2),(3,2)} (length 4 only for (2,1),(3,2))"))
     ctx.exhaustive = False
     if ctx.has_violation():
         return
     if ctx.thorough:
         ctx.shards(_hyp_shard, list(range(16)))
     else:
-        hyp_run(ctx, _strategy(), run_case, 4000, label="random")
+        hyp_run(ctx, _strategy(), run_case, 3000, label="random")
